@@ -38,7 +38,13 @@ def _cls(h, out):
     return f"len{lc}:magic{int(magic)}:{out.split()[0]}"
 
 
-GATE = C.Kind("datagram", impl=BH.parse_direct, model=lambda h: "dgram " + h, judge=_judge, classify=_cls,
+def _same_fate(m, i):
+    """C06 is about what BECOMES of a datagram (ignored / warned about / an exception / a device), not about the fields of the device
+    decoded from a genuine one (C05)"""
+    return m == i if (m.startswith("raise") or i.startswith("raise")) else m.split(" ", 1)[0] == i.split(" ", 1)[0]
+
+
+GATE = C.Kind("datagram", impl=BH.parse_direct, model=lambda h: "dgram " + h, judge=_judge, classify=_cls, compare=_same_fate,
               nontrivial=lambda h, o: (_cls(h, o), h[:8], h[148:152]))
 KINDS = {"datagram": GATE}
 
